@@ -108,6 +108,8 @@ def run(prop, repo, only=None, relevant_files=None, budget=None):
         "benign_applied": len(b), "benign_silent": len([x for x in b if x.get("fired") is False]),
         "benign_false_alarms": [x["patch"] for x in b if x.get("fired")],
         "not_applicable_patches": [x["patch"] for x in out if not x.get("applied")],
+        # a stored patch whose tree no longer builds (e.g. a rename patch that misses a call site added by a later repair) decides nothing: listed
+        "analysis_failed": [x["patch"] for x in out if x.get("applied") and x.get("fired") is None],
         "benign_skipped_for_time_budget": skipped_for_budget,
         "details": out, "wall_s": round(time.time() - t0, 1)}}
 
